@@ -201,7 +201,7 @@ def declare3(S: Spec):
     RES2 = ("all(results[j].ops is to_remove[j].assignment.ops"
             " and results[j].container_id == to_remove[j].container_id for j in range(0, len(results)))")
     RES3 = "all(ResultShape(r) for r in results)"
-    CTX = ["GI1()", ORIGIN, UNTOUCHED, "Container.next_container_num >= old(Container.next_container_num)", "ListsOK(self)", "LiveDisjoint(self)", "IdsOK(seq(self.active_containers))", "self.ticks_per_second >= 1"]
+    CTX = ["GI1()", ORIGIN, UNTOUCHED, "Container.next_container_num >= old(Container.next_container_num)", "ListsOK(self)", "LiveDisjoint(self)", "IdsOK(seq(self.active_containers))", "self.ticks_per_second >= 1", "self.i == old(self.i) + 1"]
     ACT0 = "all(ActiveOK(self, c) for c in self.active_containers)"
     ACT = "all(ActiveOK(self, c) and c._current_memory <= c.assignment.ram for c in self.active_containers)"
     ACT_LIVE = "all(not c._completed for c in self.active_containers)"
@@ -227,6 +227,7 @@ def declare3(S: Spec):
                                                      " or any(r.container_id == c.container_id and r.ops is c.assignment.ops for r in result)"
                                                      " for c in old(seq(self.active_containers)))"),
                   ("id-counter-monotone", "Container.next_container_num >= old(Container.next_container_num)"),
+                  ("tick-counted", "C09,C10| self.i == old(self.i) + 1"),
                   ("pool-invariant", "PoolInv(self)"),
                   ("memory-limits", "C04| all(c._current_memory <= c.assignment.ram for c in self.active_containers)"),
                   ("usage-truthful", "C04| " + USAGE),
@@ -343,6 +344,8 @@ def declare4(S: Spec):
                                          " and all(0 <= s.pool_id and s.pool_id < self.num_pools for s in old(seq(suspensions)))")],
          raises={"AssertionError": [], "Exception": []},
          modifies=["star('*')"],
+         native_ensures=[("every-pool-is-ticked-exactly-once",
+                          "C09,C10| all(p.i == old(p.i) + 1 for p in self.pools)")],
          weak_calls=[f"{MR}:ResourcePool.run_one_tick"],
          locals={"results": List(Ref("ExecutionResult"))},
          loops={0: dict(idx="k", header="for s in suspensions",
